@@ -145,6 +145,8 @@ def monitor(tr):
             pm, pa = dict(map(tuple, prev['mem'])), (None if prev['arch'] is None else dict(map(tuple, prev['arch'])))
             m, a = dict(map(tuple, o['mem'])), (None if o['arch'] is None else dict(map(tuple, o['arch'])))
             def bad(msg): viol.append(dict(prop='C08', i=rec['i'], sig=dict(kind='algebra', op=kind), msg='%s: %s' % (kind, msg)))
+            if kind == 'drop' and (o['archived'] or a is not None or o['swap'] is not None):
+                bad('drop() left an archive attached or parked (a later archived(True) / dump would reach it)')
             if kind == 'off' and (o['archived'] or a is not None):
                 bad('archived(False) left an archive attached')
             if kind == 'on' and pa is None and prev['swap'] is not None and a != dict(map(tuple, prev['swap'])):
